@@ -88,7 +88,7 @@ fn explore<L: Tab>(run: &Run, st: bool, n: usize) {
                 streams.push(Script::Const { base, devs: vec![(k, v)] });
             }
         }
-        if run.thorough() {
+        if run.thorough() || w <= 8 {
             for k1 in 0..w {
                 for k2 in (k1 + 1)..w {
                     if w > 16 && !(k1 < 2 || k2 >= w - 2 || k2 == k1 + 1) {
@@ -107,7 +107,7 @@ fn explore<L: Tab>(run: &Run, st: bool, n: usize) {
         streams.push(Script::Mix { seed: run.seed.wrapping_mul(1000).wrapping_add(s) });
     }
     let total = streams.len() as u64;
-    let name = format!("ENV n={} {}: {} answer streams (constant 0 / !0 with <= {} deviations at every answer index, 32 irregular streams), two consecutive draws each", n, tname, total, if run.thorough() { 2 } else { 1 });
+    let name = format!("ENV n={} {}: {} answer streams (constant 0 / !0 with <= {} deviations at every answer index, 32 irregular streams), two consecutive draws each", n, tname, total, if run.thorough() || w <= 8 { 2 } else { 1 });
     // aggregated observations over all streams
     let agg = std::sync::Mutex::new((vec![0u64; w], vec![0u64; w], vec![std::collections::BTreeSet::<u64>::new(); w], vec![false; w * w], 0u64, 0u64));
     run.section(&name, false, "deviation-bounded enumeration of the environment's answers; well-formedness on every stream", total, 64, |r, l| {
